@@ -54,8 +54,29 @@ def seed_cases(summary: Dict, peaks_count: int) -> List[Dict]:
             item = (ev["index"], ev["ref"], ev["rev"], ev["start"] + margin)
             if item not in chosen[task]:
                 chosen[task].append(item)
+    # "over all references and both strands": a (reference, strand) for which no seeding correlation was observed is
+    # correlated here with the same building blocks; its peaks join the list the selection is judged against
+    # (an unobserved correlation without peaks changes nothing: skipping such a correlation is not a violation)
+    seen_pairs: Dict[tuple, set] = {}
+    for ev in summary["modes"]["all"]["recorded"]:
+        task = tuple(ev["task"]) if ev.get("task") else None
+        if ev["ev"] == "Primary" and task in prim or (ev["ev"] == "Primary" and task is not None
+                                                       and task[1] == 0 and task[2] == nlabels.get(task[0])):
+            seen_pairs.setdefault(task, set()).add((ev["ref"], ev["rev"]))
+            prim.setdefault(task, [])
+    unobserved = 0
+    for task in list(prim):
+        missing = [(r["id"], rev) for r in summary["inp"]["refs"] for rev in (False, True)
+                   if (r["id"], rev) not in seen_pairs.get(task, set())]
+        if missing:
+            for item in _correlate(summary, task[0], missing, peaks_count):
+                unobserved += 1
+                if item not in prim[task]:
+                    prim[task].append(item)
     out = []
     for task, peaks in prim.items():
+        if not peaks:
+            continue
         sel = sorted(chosen.get(task, []))
         idx = []
         for (_, ref, rev, pos) in sel:
@@ -64,6 +85,24 @@ def seed_cases(summary: Dict, peaks_count: int) -> List[Dict]:
         out.append({"kind": "sel", "vin": {"scores": [int(round(p[3] * 10 ** 6)) for p in peaks], "count": peaks_count},
                     "obs": idx, "tag": {"input": summary["idx"], "task": list(task)}})
     return out
+
+
+def _correlate(summary: Dict, qid: int, pairs, peaks_count: int):
+    """seeding correlation of query qid against the given (reference id, strand) pairs with the real building blocks,
+    wired as _WorkflowCoordinator wires them; yields (ref, rev, position, score) per peak"""
+    from src.correlation.optical_map import OpticalMap
+    from src.correlation.sequence_generator import SequenceGenerator
+    extra = summary["extra"]
+    gen_ = SequenceGenerator(int(extra.get("-r1", 1400)), int(extra.get("-b1", 1)))
+    md = int(extra.get("-md", 20000))
+    q = next(x for x in summary["inp"]["qrys"] if x["id"] == qid)
+    qm = OpticalMap(qid, int(q["len"] // 10), [v / 10. for v in q["x"]]).trim()
+    for rid, rev in pairs:
+        r = next(x for x in summary["inp"]["refs"] if x["id"] == rid)
+        rm = OpticalMap(rid, int(r["len"] // 10), [v / 10. for v in r["x"]])
+        ia = qm.getInitialAlignment(rm, gen_, md, peaks_count, rev)
+        for pk in ia.peaks:
+            yield (rid, rev, int(pk.position), float(pk.score))
 
 
 def second_pass_lines(summary: Dict) -> List[Dict]:
